@@ -90,6 +90,14 @@ Theorem c11_move_missing_group_refuted :
 Proof. exact c11_move_missing_group_refuted_lemma. Qed.
 Print Assumptions c11_move_missing_group_refuted.
 
+(* copy_legal calls gb1->create_group(true) on to->find_group(fnum) without a null test: "a deep
+   constructed target message is required" -- but the deep constructor of the FIX44 header does not
+   pre-create NoHops (627), so clone() of a message that encodes fine is a null dereference. *)
+Theorem c11_clone_target_group_refuted :
+  exists c m, enc_of c m <> [] /\ clone c m = OOB site_target_group.
+Proof. exact c11_clone_target_group_refuted_lemma. Qed.
+Print Assumptions c11_clone_target_group_refuted.
+
 (* Non-vacuity: clone_ok holds of an API-built message with nested groups filled out of order and
    of a message decoded from in-order bytes; their clones encode to the originals' bytes. *)
 Theorem c11_nonvacuous :
